@@ -83,7 +83,7 @@ func extPow(vc *VC, fr *Frame, st *State, args []Val, pos token.Pos) []Outcome {
 func (vc *VC) newError(st *State, tag string) Term {
 	t := vc.freshTerm("err_"+tag, SErr)
 	t.NonNil = true
-	st.Assume(Not(Eq(t, Term{S: SErr, E: "err_nil"})))
+	st.Fact(Not(Eq(t, Term{S: SErr, E: "err_nil"})))
 	vc.assume("A-STD")
 	return t
 }
@@ -297,6 +297,7 @@ func (vc *VC) streamReadByte(st *State, recv Val) []Outcome {
 		n := s
 		n.Pos = vc.iAdd(s.Pos, vc.idx(1))
 		s1.mem[p.Cell] = n
+		s1.extWrites++
 		if vc.writeLog != nil {
 			vc.writeLog[p.Cell] = true
 		}
@@ -352,6 +353,7 @@ func (vc *VC) streamRead(st *State, recv Val, buf SliceVal) []Outcome {
 		ns := s
 		ns.Pos = vc.iAdd(s.Pos, n)
 		s1.mem[p.Cell] = ns
+		s1.extWrites++
 		if vc.writeLog != nil {
 			vc.writeLog[p.Cell] = true
 		}
@@ -412,6 +414,7 @@ func extReadFull(vc *VC, fr *Frame, st *State, args []Val, pos token.Pos) []Outc
 		ns := s
 		ns.Pos = vc.iAdd(s.Pos, buf.Len)
 		s1.mem[p.Cell] = ns
+		s1.extWrites++
 		if vc.writeLog != nil {
 			vc.writeLog[p.Cell] = true
 		}
@@ -432,6 +435,7 @@ func extReadFull(vc *VC, fr *Frame, st *State, args []Val, pos token.Pos) []Outc
 		ns := s
 		ns.Pos = s.Len
 		s2.mem[p.Cell] = ns
+		s2.extWrites++
 		if vc.writeLog != nil {
 			vc.writeLog[p.Cell] = true
 		}
@@ -701,6 +705,14 @@ func (vc *VC) doPanicOutcome(ps *State) []Outcome {
 func (vc *VC) symIfaceMethod(fr *Frame, st *State, r SymIface, m *types.Func, args []Val, pos token.Pos) []Outcome {
 	sig := m.Type().(*types.Signature)
 	full := m.FullName()
+	rets := vc.symMethodResults(st, r, full, sig, args)
+	return one(st, rets...)
+}
+
+// symMethodResults: methods of a symbolic interface value are deterministic (pure): the
+// results are constants cached per (receiver identity, method, arguments).
+func (vc *VC) symMethodResults(st *State, r SymIface, full string, sig *types.Signature, args []Val) []Val {
+	key := "symiface|" + full + "|" + r.T.E
 	targs := []Term{r.T}
 	for _, a := range args {
 		t, ok := a.(Term)
@@ -708,39 +720,55 @@ func (vc *VC) symIfaceMethod(fr *Frame, st *State, r SymIface, m *types.Func, ar
 			panic(execError{"symbolic interface method " + full + " with non-scalar argument"})
 		}
 		targs = append(targs, t)
+		key += "|" + t.E
 	}
+	if vc.pureCache == nil {
+		vc.pureCache = map[string][]Val{}
+	}
+	cached, hit := vc.pureCache[key]
 	var rets []Val
-	for i := 0; i < sig.Results().Len(); i++ {
-		rt := sig.Results().At(i).Type()
-		s, ok := vc.sortOf(rt)
-		if !ok {
-			// interface-typed results (e.g. Image.At returns color.Color): fresh symbolic identity
-			if _, isIface := rt.Underlying().(*types.Interface); isIface {
-				vc.declareSort("Iface")
-				id := vc.ufApp(fmt.Sprintf("%s.%d", full, i), OpaqueSort("Iface"), targs...)
-				rets = append(rets, SymIface{T: id, Type: rt})
-				continue
+	if hit {
+		rets = cached
+	} else {
+		for i := 0; i < sig.Results().Len(); i++ {
+			rt := sig.Results().At(i).Type()
+			s, ok := vc.sortOf(rt)
+			if !ok {
+				if _, isIface := rt.Underlying().(*types.Interface); isIface {
+					vc.declareSort("Iface")
+					id := vc.ufApp(fmt.Sprintf("%s.%d", full, i), OpaqueSort("Iface"), targs...)
+					rets = append(rets, SymIface{T: id, Type: rt})
+					continue
+				}
+				panic(execError{"symbolic interface method " + full + " has unsupported result type"})
 			}
-			panic(execError{"symbolic interface method " + full + " has unsupported result type"})
+			var t Term
+			if len(args) == 0 && vc.noDefine == 0 {
+				t = vc.freshTerm(fmt.Sprintf("%s.%d", full, i), s)
+			} else {
+				t = vc.ufApp(fmt.Sprintf("%s.%d", full, i), s, targs...)
+			}
+			t.Signed = isSigned(rt)
+			rets = append(rets, t)
 		}
-		t := vc.ufApp(fmt.Sprintf("%s.%d", full, i), s, targs...)
-		t.Signed = isSigned(rt)
-		if vc.mode.IntMath {
-			st.Assume(vc.typeRange(t, rt))
+		vc.pureCache[key] = rets
+	}
+	for i := 0; i < sig.Results().Len(); i++ {
+		if t, ok := rets[i].(Term); ok && vc.mode.IntMath {
+			st.Fact(vc.typeRange(t, sig.Results().At(i).Type()))
 		}
-		rets = append(rets, t)
 	}
 	if full == "(image/color.Color).RGBA" {
 		// A-IMG: alpha-premultiplied 16-bit channels
 		vc.assume("A-IMG")
 		lim := vc.intConst(0xffff, types.Typ[types.Uint32])
 		a := rets[3].(Term)
-		st.Assume(vc.iLe(a, lim, false))
+		st.Fact(vc.iLe(a, lim, false))
 		for k := 0; k < 3; k++ {
-			st.Assume(vc.iLe(rets[k].(Term), a, false))
+			st.Fact(vc.iLe(rets[k].(Term), a, false))
 		}
 	}
-	return one(st, rets...)
+	return rets
 }
 
 func (vc *VC) callBuiltin(fr *Frame, st *State, name string, args []Val, c *ssa.CallCommon, pos token.Pos) []Outcome {
